@@ -38,6 +38,8 @@ type (
 	SessionStore struct {
 		key   string
 		value string
+		// sess, if set, is encoded by the store loop in place of value.
+		sess *Session
 	}
 )
 
@@ -63,6 +65,14 @@ func (sm *SessionManager) doStore() {
 			return
 		case kv := <-sm.storeCh:
 			logger.SpanDebugf(nil, "session manager store session %v", kv.key)
+			if kv.sess != nil {
+				value, err := kv.sess.encodeCurrent()
+				if err != nil {
+					logger.SpanErrorf(nil, "encode session %v failed: %v", kv.key, err)
+					continue
+				}
+				kv.value = value
+			}
 			err := sm.store.put(sessionStoreKey(kv.key), kv.value)
 			if err != nil {
 				logger.SpanErrorf(nil, "put session %v into storage failed: %v", kv.key, err)
